@@ -98,8 +98,13 @@ int
 main (void)
 {	SF_PRIVATE *psf = &g_psf ;
 	HSNAP before, other_before ;
-	sf_count_t nd_len = nondet_i64 (), nd_avail = nondet_i64 (), nd_wshort = nondet_i64 () ;
-	int nd_hdrret = nondet_int (), nd_seekfail = nondet_int (), nd_nullh = nondet_int () ;
+	sf_count_t nd_len = nondet_i64 () ;
+	sf_count_t nd_avail = nondet_i64 () ;
+	sf_count_t nd_wshort = nondet_i64 () ;
+	int nd_hdrret = nondet_int () ;
+	int nd_seekfail = nondet_int () ;
+	int nd_nullh = nondet_int () ;
+	T nd_stream [(FR_MAX + 2) * CH] ;
 	sf_count_t ret, items, p, F, i ;
 	T *buf ;
 	int k ;
@@ -111,8 +116,9 @@ main (void)
 	psf->seek = stub_seek ;
 	psf->write_header = stub_write_header ;
 
+	ND_FILL (nd_stream, (FR_MAX + 2) * CH, NDT) ;
 	for (k = 0 ; k < (FR_MAX + 2) * CH ; k++)
-	{	T nd_s = ND_T () ;
+	{	T nd_s = nd_stream [k] ;
 		VASSUME (nd_s != SENTINEL && nd_s != (T) 0 && nd_s == nd_s) ;	/* (no NaN: compared with ==) */
 		g_stream [k] = nd_s ;
 		} ;
